@@ -23,13 +23,36 @@ S = 10**6
 HALS_CAP = 2000          # sweeps when not in exact=True mode (the solver's own stopping rule never fires, see report)
 FISTA_CAP = 5000
 VARIANTS = [("hals", "cold"), ("hals", "ones"), ("hals", "exact"),
+            ("hals", "nzr"), ("hals", "eps"), ("hals", "subopt_a"), ("hals", "trunc"),       # option / chained variants: see OPTIONAL
             ("fista", "cold"), ("fista", "ones"), ("fista", "tol0"), ("fista", "partial_a"), ("fista", "other"),
+            ("fista", "eps"), ("fista", "subopt_a"), ("fista", "trunc"),
             ("active_set", "cold"), ("active_set", "ones"), ("active_set", "pos_small"), ("active_set", "pos_big"),
-            ("active_set", "partial_a"), ("active_set", "partial_b"), ("active_set", "other"), ("admm", "none")]
+            ("active_set", "partial_a"), ("active_set", "partial_b"), ("active_set", "other"),
+            ("active_set", "subopt_a"), ("active_set", "subopt_b"), ("active_set", "trunc1"), ("active_set", "trunc2"),
+            ("admm", "none")]
 # variants run on the extra batch of penalty-free problems reserved for the cheap solvers
-CHEAP_VARIANTS = [("active_set", v) for v in ("cold", "ones", "pos_small", "pos_big", "partial_a", "partial_b", "other")] + \
-                 [("fista", "partial_b"), ("fista", "pos_big")]
-WARM = ("ones", "pos_small", "pos_big", "partial_a", "partial_b", "other")
+CHEAP_VARIANTS = [("active_set", v) for v in ("cold", "ones", "pos_small", "pos_big", "partial_a", "partial_b", "other",
+                                               "subopt_a", "subopt_b", "trunc1", "trunc2")] + \
+                 [("fista", "partial_b"), ("fista", "pos_big"), ("fista", "subopt_b"), ("fista", "trunc")]
+WARM = ("ones", "pos_small", "pos_big", "partial_a", "partial_b", "other", "subopt_a", "subopt_b")
+# length of the truncated first run whose output is the start of the second, full run (chained calls)
+TRUNC = {("active_set", "trunc1"): 1, ("active_set", "trunc2"): 2, ("fista", "trunc"): 10, ("hals", "trunc"): 2}
+EPS = (1, 2)             # the lower bound epsilon = 1/2 of the "eps" variants (NNLS.tla: EpsSet)
+
+
+def sub_solution(G, B, l1, l2, supports):
+    """the exact minimiser of the problem RESTRICTED to the given support (one support per column): optimal on its own
+    support, in general not globally.  Input construction only (scipy's nnls on the Cholesky factor)."""
+    from scipy.optimize import nnls
+    n, k = B.shape
+    A = G + 2 * l2 * np.eye(n)
+    X = np.zeros((n, k))
+    for j in range(k):
+        P = sorted(supports[j])
+        if P:
+            L = np.linalg.cholesky(A[np.ix_(P, P)])
+            X[P, j] = nnls(L.T, np.linalg.solve(L, (B[:, j] - l1)[P]))[0]
+    return X
 
 
 def make_start(variant, rng, n, k, other):
@@ -43,10 +66,12 @@ def make_start(variant, rng, n, k, other):
     elif variant in ("partial_a", "partial_b"):
         keep = 0.75 if variant == "partial_a" else 0.5
         X = np.array([[(rng.random() * 2 if rng.random() < keep else 0.0) for _ in range(k)] for _ in range(n)])
-    elif variant == "other":
+    elif variant in ("other", "subopt_a", "subopt_b"):
         X = np.asarray(other, dtype=np.float64)
     else:
         raise ValueError(variant)
+    if variant.startswith("subopt"):
+        return [[float(v) for v in X[:, j]] for j in range(k)]        # full precision: must stay optimal on its support
     return [[round(float(v), 6) for v in X[:, j]] for j in range(k)]
 
 
@@ -72,37 +97,58 @@ def _reference(G, B, l1, l2):
     return X
 
 
-def solve(case, G, B):
-    """run one solver variant; returns the solution as an (n x k) array (columns = right-hand sides)."""
+def _run(case, G, B, start, n_iter=None):
+    """one call of the solver of this case from `start` (None = the solver's default start)."""
     from tensorly.solvers.nnls import hals_nnls, fista, active_set_nnls
     from tensorly.solvers.admm import admm
     n, k = B.shape
     l1, l2 = case["p1"] / case["q"], case["p2"] / case["q"]
     solver, variant = case["solver"], case["variant"]
+    eps = case.get("ep", 0) / case.get("eq", 1)
     if solver == "hals":
-        V = None
-        if variant == "ones":
-            V = np.ones((n, k))
-        elif variant == "exact":
-            V = _reference(G, B, l1, l2)
-        kw = dict(exact=True) if case["mode"] == "exact" else dict(n_iter_max=case.get("cap", HALS_CAP), tol=1e-16)
-        return hals_nnls(B.copy(), G.copy(), V=V, sparsity_coefficient=(l1 if case["p1"] else None),
+        if n_iter is not None:
+            kw = dict(n_iter_max=n_iter, tol=1e-16)
+        elif case["mode"] == "exact":
+            kw = dict(exact=True)
+        else:
+            kw = dict(n_iter_max=case.get("cap", HALS_CAP), tol=1e-16)
+        if case.get("nzr"):
+            kw["nonzero_rows"] = True
+        if case.get("ep", 0):
+            kw["epsilon"] = eps
+        return hals_nnls(B.copy(), G.copy(), V=None if start is None else start.copy(), sparsity_coefficient=(l1 if case["p1"] else None),
                          ridge_coefficient=(l2 if case["p2"] else None), **kw)
-    start = None if case.get("start") is None else np.array(case["start"], dtype=np.float64).T      # n x k
     if solver == "fista":
-        x0 = start
         tol = 0.0 if variant == "tol0" else 1e-16
-        return fista(B.copy(), G.copy(), x=x0, sparsity_coef=l1, ridge_coef=l2, tol=tol, n_iter_max=case.get("cap", FISTA_CAP))
+        kw = dict(epsilon=eps) if case.get("ep", 0) else {}
+        return fista(B.copy(), G.copy(), x=None if start is None else start.copy(), sparsity_coef=l1, ridge_coef=l2, tol=tol,
+                     n_iter_max=n_iter if n_iter is not None else case.get("cap", FISTA_CAP), **kw)
     if solver == "active_set":
         cols = []
         for j in range(k):
             x0 = None if start is None else start[:, j].copy()
-            cols.append(np.asarray(active_set_nnls(B[:, j].copy(), G.copy(), x=x0, tol=1e-16, n_iter_max=100)).reshape(n))
+            cols.append(np.asarray(active_set_nnls(B[:, j].copy(), G.copy(), x=x0, tol=1e-16,
+                                                   n_iter_max=n_iter if n_iter is not None else 100)).reshape(n))
         return np.stack(cols, axis=1)
     if solver == "admm":
         x, _, _ = admm(B.T.copy(), G.copy(), np.zeros((k, n)), np.zeros((k, n)), n_const=None)
         return np.asarray(x).T
     raise ValueError(solver)
+
+
+def solve(case, G, B):
+    """run one solver variant; returns the solution as an (n x k) array (columns = right-hand sides)."""
+    n, k = B.shape
+    solver, variant = case["solver"], case["variant"]
+    start = None if case.get("start") is None else np.array(case["start"], dtype=np.float64).T      # n x k
+    if solver == "hals" and variant == "ones":
+        start = np.ones((n, k))
+    elif solver == "hals" and variant == "exact":
+        start = _reference(G, B, case["p1"] / case["q"], case["p2"] / case["q"])
+    if case.get("trunc"):
+        # chained calls: resume from the output of a truncated run of the same solver
+        start = np.asarray(_run(case, G, B, None, n_iter=case["trunc"]), dtype=np.float64).reshape(n, k)
+    return _run(case, G, B, start)
 
 
 def _cols(a):
@@ -131,7 +177,8 @@ def execute(case):
         G, B, cond = gen_problem(case)
     n, k = B.shape
     ev = {"id": case["id"], "kind": case["kind"], "solver": case["solver"], "variant": case["variant"], "mode": case["mode"],
-          "p1": case["p1"], "p2": case["p2"], "q": case["q"], "raised": False, "exc": "", "size": 0, "nneg": 0, "x": []}
+          "p1": case["p1"], "p2": case["p2"], "q": case["q"], "raised": False, "exc": "", "size": 0, "nlow": 0, "x": [],
+          "nzr": bool(case.get("nzr", False)), "zero_rows": 0, "ep": case.get("ep", 0), "eq": case.get("eq", 1)}
     if case["kind"] == "exact":
         ev.update(G=case["G"], B=case["B"])
     else:
@@ -141,7 +188,8 @@ def execute(case):
         ev["size"] = int(X.size)
         if X.shape == (n, k):
             ev["x"] = _cols(X)
-            ev["nneg"] = int(np.sum(X < 0))
+            ev["nlow"] = int(np.sum(X < case.get("ep", 0) / case.get("eq", 1)))      # entries below the bound, on the floats
+            ev["zero_rows"] = int(np.sum(np.all(X == 0, axis=1)))
             if case["kind"] == "kkt":
                 l1, l2 = case["p1"] / case["q"], case["p2"] / case["q"]
                 ev["g"] = _cols(G @ X - B + l1 + 2 * l2 * X)
@@ -168,7 +216,7 @@ def build_cases(chk, cfgs, thorough):
         n = len(G)
         extra = G == ((19, 9), (9, 19))
         if thorough:
-            if rng.random() > {1: 1.0, 2: 0.35, 3: 0.08}[n] and not extra:
+            if rng.random() > {1: 1.0, 2: 0.25, 3: 0.06}[n] and not extra:
                 continue
             rng.shuffle(bs)
             for t in range(0, len(bs), 3):
@@ -192,30 +240,57 @@ def build_cases(chk, cfgs, thorough):
         alt = [[-c[(i + 1) % n] if any(c) else G[i][i] for i in range(n)] for c in cols]
         return _reference(Gf, np.array(alt, dtype=np.float64).T, p1 / q_, p2 / q_)
 
-    def add_exact(G, p1, p2, q_, cols, variants, exact_mode, batch):
+    def random_supports(n, k):
+        """one random proper subset of the unknowns per column (possibly empty)"""
+        return [[i for i in range(n) if rng.random() < 0.5][: n - 1] if n > 1 else [] for _ in range(k)]
+
+    def add_exact(G, p1, p2, q_, cols, variants, exact_mode, batch, pi=0):
         nonlocal n_exact_mode
         Gf = np.array(G, dtype=np.float64)
+        Bf = np.array(cols, dtype=np.float64).T
         n, k = len(G), len(cols)
-        ls = np.linalg.solve(Gf, np.array(cols, dtype=np.float64).T)
+        ls = np.linalg.solve(Gf, Bf)
+        extra = tuple(tuple(r) for r in G) == ((19, 9), (9, 19))
         flags = {"ls_nonpos": bool(np.all(ls <= 0)), "batch": batch,
                  "signed": any(G[i][j] < 0 for i in range(n) for j in range(n))}
         other = None
         for solver, variant in variants:
             if solver in ("active_set", "admm") and (p1 or p2):
                 continue
-            mode = "exact" if (solver == "hals" and exact_mode) else "cap"
+            opt = {}
+            if solver == "hals" and variant in ("nzr", "eps", "subopt_a", "trunc"):
+                # hals is expensive (every run goes to its cap): nonzero_rows on every multi-rhs problem, the others on a third each
+                if variant == "nzr" and k < 2:
+                    continue
+                if variant != "nzr" and pi % 3 != ("eps", "subopt_a", "trunc").index(variant):
+                    continue
+            if variant == "nzr":
+                opt["nzr"] = True
+            if variant == "eps":
+                if extra:
+                    continue
+                opt.update(ep=EPS[0], eq=EPS[1])
+            if (solver, variant) in TRUNC:
+                opt["trunc"] = TRUNC[(solver, variant)]
+            mode = "exact" if (solver == "hals" and exact_mode and not opt) else "cap"
             n_exact_mode += mode == "exact"
             start = None
-            if solver != "hals" and variant in WARM:
-                if variant == "other" and other is None:
-                    other = other_solution(G, p1, p2, q_, cols)
-                start = make_start(variant, rng, n, k, other)
-            cases.append({"id": "C13/%s-%s/%06d" % (solver, variant, len(cases)), "kind": "exact", "solver": solver, "variant": variant,
-                          "mode": mode, "G": [list(r) for r in G], "B": cols, "p1": p1, "p2": p2, "q": q_, "start": start,
-                          "flags": flags})
+            if variant in WARM and not (solver == "hals" and variant == "ones"):
+                src = None
+                if variant == "other":
+                    if other is None:
+                        other = other_solution(G, p1, p2, q_, cols)
+                    src = other
+                elif variant.startswith("subopt"):
+                    src = sub_solution(Gf, Bf, p1 / q_, p2 / q_, random_supports(n, k))
+                start = make_start(variant, rng, n, k, src)
+            c = {"id": "C13/%s-%s/%06d" % (solver, variant, len(cases)), "kind": "exact", "solver": solver, "variant": variant,
+                 "mode": mode, "G": [list(r) for r in G], "B": cols, "p1": p1, "p2": p2, "q": q_, "start": start, "flags": flags}
+            c.update(opt)
+            cases.append(c)
 
     for pi, (G, p1, p2, q_, cols) in enumerate(problems):
-        add_exact(G, p1, p2, q_, cols, VARIANTS, pi % (97 if thorough else 23) == 0, "main")
+        add_exact(G, p1, p2, q_, cols, VARIANTS, pi % (97 if thorough else 23) == 0, "main", pi)
     # extra batch for the cheap solvers: penalty-free problems on Gram matrices with a negative off-diagonal entry
     # ("signed designs"), 2-3 unknowns, 2-3 right-hand sides each
     signed_groups = [key for key in sorted(groups) if key[1] == 0 and key[2] == 0 and len(key[0]) >= 2
@@ -240,12 +315,26 @@ def build_cases(chk, cfgs, thorough):
         for solver, variant in (CHEAP_VARIANTS if cheap else VARIANTS):
             if solver in ("active_set", "admm") and (p1 or p2):
                 continue
-            if variant == "exact":
-                continue           # no exact reference beyond 3 unknowns
-            start = make_start(variant, rng, n, k, other) if (solver != "hals" and variant in WARM) else None
-            cases.append({"id": "C13/kkt-%s-%s/%06d" % (solver, variant, len(cases)), "kind": "kkt", "solver": solver, "variant": variant,
-                          "mode": "cap", "cap": 6000, "n": n, "k": k, "p1": p1, "p2": p2, "q": q_, "gen_seed": gs, "cond_max": 60.0,
-                          "start": start, "flags": kflags})
+            if variant in ("exact", "eps"):
+                continue           # no exact reference beyond 3 unknowns; the epsilon bound is judged in the exact tier only
+            if solver == "hals" and ((variant == "nzr" and k < 2) or variant in ("subopt_a", "trunc") and t % 2):
+                continue
+            opt = {}
+            if variant == "nzr":
+                opt["nzr"] = True
+            if (solver, variant) in TRUNC:
+                opt["trunc"] = TRUNC[(solver, variant)]
+            start = None
+            if variant in WARM and not (solver == "hals" and variant == "ones"):
+                src = other
+                if variant.startswith("subopt"):
+                    src = sub_solution(Gm, Bm, p1 / q_, p2 / q_, [[i for i in range(n) if rng.random() < 0.5][: n - 1] for _ in range(k)])
+                start = make_start(variant, rng, n, k, src)
+            c = {"id": "C13/kkt-%s-%s/%06d" % (solver, variant, len(cases)), "kind": "kkt", "solver": solver, "variant": variant,
+                 "mode": "cap", "cap": 6000, "n": n, "k": k, "p1": p1, "p2": p2, "q": q_, "gen_seed": gs, "cond_max": 60.0,
+                 "start": start, "flags": kflags}
+            c.update(opt)
+            cases.append(c)
     return cases, len(problems), nprob_domain, n_exact, n_exact_mode
 
 
@@ -290,6 +379,8 @@ def run(chk, opts):
         "NumPy backend only",
         "exact tier: integer SPD Gram matrices with 1-3 unknowns (cond <= 34, plus the [[19,9],[9,19]] reproducer), integer right-hand sides",
         "solutions compared at 1e-5 (SolTol) with the exact rational minimiser; measured tier judged by KKT residuals <= 5e-5 (cond <= 60)",
+        "options: hals nonzero_rows=True (no all-zero row unless the solution is zero), epsilon=1/2 for hals and fista (minimiser over x >= epsilon); "
+        "chained starts: output of a truncated run of the same solver, exact minimiser restricted to a random support",
         "warm starts: ones, two other all-positive scales, two random partial-support draws, the solution of a different problem (active set: all; fista: a subset; hals: ones and the solution)",
         "hals_nnls is run with n_iter_max=2000/6000, tol=1e-16 except for a subset with exact=True (its stopping rule never fires: every run goes to the cap)",
         "the 'warm from the solution' start is built by the harness with numpy (input construction only)",
